@@ -217,7 +217,8 @@ class Gen:
             e = self.expr(ty, scope)
             # occasionally shadow an existing name
             existing = [n for (n, t) in scope if not isinstance(t, tuple) and not n.startswith("k")]
-            name = r.choice(existing) if existing and r.random() < 0.15 else self.fresh()
+            shadow_ok = not (self.features.get("unique_top") and depth == 0)
+            name = r.choice(existing) if existing and shadow_ok and r.random() < 0.15 else self.fresh()
             scope.append((name, ty))
             return self.node("let", n=name, e=e)
         if c < 0.32:
